@@ -258,6 +258,13 @@ example : ({ vecs := #[{ mutable := true, items := [.nil, .nil] }] } : Store).ve
     some { mutable := true, items := [.nil, .nil] } ∧ ((2 : Nat) : Int) ≤ 2 ∧ (-1 : Int) < 0 :=
   ⟨rfl, by decide, by decide⟩
 
+/-- both together: out of range (or negative) is `vectorIndex` for reading and for writing -/
+theorem fault_vector_index {σ : Store} {id : Nat} {cell : VecCell} {n : Int} (obj : Value)
+    (hc : σ.vecs[id]? = some cell) (hn : n < 0 ∨ (cell.items.length : Int) ≤ n) :
+    BuiltinFault σ .vectorRef [.vec id, .num (.int n)] .vectorIndex ∧
+    (cell.mutable = true → BuiltinFault σ .vectorSet [.vec id, .num (.int n), obj] .vectorIndex) :=
+  ⟨fault_vector_index_ref hc hn, fun hm => fault_vector_index_set hc hm hn⟩
+
 /-! ### mutating a literal vector -/
 
 /-- `vector-set!` on an immutable cell, whatever the index (in range or not) and the value:
@@ -555,6 +562,18 @@ theorem effects_before_error_kept_definitions {ρ σ ds σ₁ x e l er σ₂ pos
     r = .error er ∧ σ' = σ₂ :=
   Stable.unique h (EvalsDefs.seq_err hs he)
 
+/-- all three: wherever a sequence (operands, body, internal definitions) fails, its outcome is that
+error and its store the one reached at the failing element -/
+theorem effects_before_error_kept {σ ρ σ₂ er σ₃} :
+    (∀ pre a post vs, EvalsArgs σ ρ pre (.ok vs) σ₂ → Evals σ₂ ρ a (.error er) σ₃ →
+      EvalsArgs σ ρ (pre ++ a :: post) (.error er) σ₃) ∧
+    (∀ pre e e' post, EvalsSeq ρ σ pre σ₂ → Evals σ₂ ρ e (.error er) σ₃ →
+      EvalsBody σ ρ (pre ++ e :: e' :: post) (.error er) σ₃) ∧
+    (∀ ds x e l post, EvalsDefSeq ρ σ ds σ₂ → Evals σ₂ ρ e (.error er) σ₃ →
+      EvalsDefs σ ρ (ds ++ .mk x e l :: post) (.error er) σ₃) :=
+  ⟨fun _ _ _ _ hpre ha => EvalsArgs.append_err hpre ha, fun _ _ _ _ hs he => EvalsBody.seq_err hs he,
+   fun _ _ _ _ _ hs he => EvalsDefs.seq_err hs he⟩
+
 /-- `eval_expression_or_definition` changes NOTHING BUT THE STORE of the interpreter state, whatever
 the statement and the outcome -/
 theorem state_after_form (fuel : Nat) (st : Interp.State) (s : Statement) (ρ : Nat) :
@@ -651,5 +670,84 @@ theorem no_value_after_error {σ ρ f args l r σ'} (h : Evals σ ρ (.call f ar
   ⟨fun _ _ hf => Evals.unique h (Evals.call_op_err hf),
    fun _ _ _ _ hf hp ha => Evals.unique h (Evals.call_arg_err hf ha hp),
    fun _ _ _ _ _ _ hf ha hp hap => Evals.unique h (Evals.call hf ha hp hap)⟩
+
+/-! ## further non-vacuity examples (concrete instances of the theorems above) -/
+
+section Examples
+
+/-- `((lambda () (5)))` in the trampoline: the pending call `(5)` has a non-procedure operator -/
+example : Applies {} (.closure (.mk ⟨[], none⟩ [] [.call (.prim (.int 5) (some (2, 3))) [] none]) 0) [] 0
+    (.error (.nonProcedure, some (2, 3))) (({} : Store).newFrame (some 0)).2 :=
+  fault_nonprocedure_tail rfl (AppliesScheme.intro_ok rfl EvalsDefs.nil (EvalsBody.last EvalsTail.call))
+    (Evals.prim rfl) EvalsArgs.nil rfl
+
+example : BuiltinFault {} .car [.num (.int 5)] .type := fault_type_car (by intro a d h; cases h)
+example : BuiltinFault {} .mul [.num (.int 2), .str "a"] .type :=
+  fault_type_mul (pre := [.num (.int 2)]) (post := []) (acc := .int 2) rfl (fun h => h)
+example : BuiltinFault {} .sub [.str "a", .num (.int 1)] .type :=
+  (fault_type_sub_div_first (x := .str "a") (fun h => h)).1
+example : BuiltinFault {} .div [.num (.int 1), .str "a"] .type :=
+  (fault_type_sub_div_second (x := .str "a") (fun h => h)).2
+example : BuiltinFault {} .vectorRef [.num (.int 1), .num (.int 0)] .type :=
+  fault_type_vector_ref (.inl (fun _ h => by cases h))
+example : BuiltinFault {} .vectorSet [.vec 0, .str "k", .nil] .type :=
+  fault_type_vector_set (.inr (fun _ h => by cases h))
+example : BuiltinFault {} .makeVector [.str "k", .nil] .type := fault_type_make_vector (fun _ h => by cases h)
+
+/-- a literal vector `#(())`: reading index 1 is out of range, writing index 0 is refused -/
+example : BuiltinFault { vecs := #[{ mutable := false, items := [.nil] }] } .vectorRef [.vec 0, .num (.int 1)] .vectorIndex ∧
+    BuiltinFault { vecs := #[{ mutable := false, items := [.nil] }] } .vectorSet [.vec 0, .num (.int 0), .nil] .immutable :=
+  ⟨fault_vector_index_ref (cell := { mutable := false, items := [.nil] }) rfl (.inr (by decide)),
+   fault_immutable 0 .nil (cell := { mutable := false, items := [.nil] }) rfl rfl⟩
+
+example : BuiltinFault {} .div [.num (.rat 1 2), .num (.int 0)] .divZero :=
+  (fault_div_zero (σ := {}) [] (a := .rat 1 2) (b := .int 0) trivial rfl).1
+
+/-- `(apply car 1 '(2))`: the loop reaches `car` with two arguments through `apply`; the whole run is
+the arity error -/
+example : Applies {} (.builtin .apply) [.builtin .car, .num (.int 1), .pair (.num (.int 2)) .nil] 0
+    (.error (.arity, none)) {} :=
+  arity_checked_everywhere (q := .builtin .car) (qargs := [.num (.int 1), .num (.int 2)])
+    (.apply (by simp) rfl .refl) rfl rfl
+
+/-- `((lambda (x y z) 0) 1 zz never)`: the unbound `zz` stops the operands; `never` is not looked at -/
+example : Evals {} 0 (.call (.lambda (.mk ⟨["x", "y", "z"], none⟩ [] [.prim (.int 0) none]) none)
+      ([.prim (.int 1) none] ++ .sym "zz" (some (1, 9)) :: [.sym "never" none]) none)
+    (.error (.unbound, some (1, 9))) {} :=
+  (error_propagates_operand Evals.lambda rfl (EvalsArgs.cons (Evals.prim rfl) EvalsArgs.nil)
+    (Evals.sym_unbound rfl)).2
+
+/-- `(if zz 1 2)` and `(set! x zz)` -/
+example : Evals {} 0 (.cond (.sym "zz" none) (.prim (.int 1) none) (some (.prim (.int 2) none)) none)
+      (.error (.unbound, none)) {} ∧
+    Evals {} 0 (.assign "x" (.sym "zz" none) none) (.error (.unbound, none)) {} :=
+  ⟨(error_propagates_if_test (Evals.sym_unbound rfl)).1, error_propagates_set (Evals.sym_unbound rfl)⟩
+
+/-- a body `(1 zz 2 3)`: the second expression fails, the rest is not evaluated -/
+example : EvalsBody {} 0 ([.prim (.int 1) none] ++ .sym "zz" none :: .prim (.int 2) none :: [.prim (.int 3) none])
+    (.error (.unbound, none)) {} :=
+  error_propagates_body (.cons (Evals.prim rfl) .nil) (Evals.sym_unbound rfl)
+
+/-- the value of `((lambda () 7))` comes from its parts -/
+example : ∃ fv σ₁ vs σ₂, Evals {} 0 (.lambda (.mk ⟨[], none⟩ [] [.prim (.int 7) none]) none) (.ok fv) σ₁ ∧
+    EvalsArgs σ₁ 0 [] (.ok vs) σ₂ ∧ (procArity fv).isSome ∧ ∃ σ', AppliesProc σ₂ fv vs 0 (.ok (.num (.int 7))) σ' := by
+  have h : ∃ σ', Evals {} 0 (.call (.lambda (.mk ⟨[], none⟩ [] [.prim (.int 7) none]) none) [] none)
+      (.ok (.num (.int 7))) σ' :=
+    ⟨_, Evals.call Evals.lambda EvalsArgs.nil rfl (AppliesProc.of_loop (Applies.closure_value rfl
+      (AppliesScheme.intro_ok rfl EvalsDefs.nil (EvalsBody.last (EvalsTail.other (by intros; exact Expr.noConfusion)
+        (by intros; exact Expr.noConfusion) (Evals.prim rfl))))))⟩
+  obtain ⟨σ', h⟩ := h
+  obtain ⟨fv, σ₁, vs, σ₂, h₁, h₂, h₃, h₄⟩ := no_invented_value h
+  exact ⟨fv, σ₁, vs, σ₂, h₁, h₂, h₃, σ', h₄⟩
+
+/-- a failing top-level form: `zz`, then any later form is evaluated from the same state -/
+example (s₂ : Statement) :
+    (Interp.evalAst 1 {} (.expr (.sym "zz" (some (1, 1))))).1 = .error (.unbound, some (1, 1)) ∧
+    Interp.evalAst 1 (Interp.evalAst 1 {} (.expr (.sym "zz" (some (1, 1))))).2 s₂ =
+      Interp.evalAst 1 { ({} : Interp.State) with store := {}, importEnd := true } s₂ :=
+  later_forms_normal 1 {} (.sym "zz" (some (1, 1))) s₂ (k := .unbound) (loc := some (1, 1)) (σ₁ := {}) (by
+    simp [evalExpr, Store.lookup, Store.lookupAux])
+
+end Examples
 
 end Ruschm.C08
